@@ -87,7 +87,7 @@ Definition run_redeem_dbg (so : sigops) (c : ctx) (saved : list bytes) (s : st) 
                    | (SErr, acc', evs) => err_dbg acc' (AS :: evs)
                    | (SPanic, acc', evs) => panic_dbg acc' (AS :: evs)
                    | (SReturn s2, acc', evs) =>
-                       pre (AS :: evs ++ [BC; AC; AS]) (finish_dbg c (ds s2) (snap (shift_script s2 []) :: acc'))
+                       pre (AS :: evs ++ [BC; AC; AS]) (finish_dbg c (ds s2) (snap (shift_script (set_als s2 []) []) :: acc'))
                    | (SEnd s2, acc', evs) =>
                        match end_script s2 with
                        | None => err_dbg acc' (AS :: evs)
@@ -106,7 +106,7 @@ Definition run_lock_dbg (so : sigops) (c : ctx) (bip16 : bool) (saved : list byt
   | (SErr, acc', evs) => err_dbg acc' evs
   | (SPanic, acc', evs) => panic_dbg acc' evs
   | (SReturn s2, acc', evs) =>
-      pre (evs ++ [BC; AC; AS]) (finish_dbg c (ds s2) (snap (shift_script s2 []) :: acc'))
+      pre (evs ++ [BC; AC; AS]) (finish_dbg c (ds s2) (snap (shift_script (set_als s2 []) []) :: acc'))
   | (SEnd s2, acc', evs) =>
       match end_script s2 with
       | None => err_dbg acc' evs
@@ -129,12 +129,9 @@ Definition execute_dbg (so : sigops) (c : ctx) (bip16 : bool) (unlock lock : lis
       | (SErr, acc, evs) => err_dbg acc (BE :: evs)
       | (SPanic, acc, evs) => panic_dbg acc (BE :: evs)
       | (SReturn s1, acc, evs) =>
-          let s2 := shift_script s1 lock in
+          let s2 := shift_script (set_als s1 []) lock in
           match lock with
-          | [] =>
-              (* shiftScript, afterStep (not done: scriptIdx = 1 < 2); the next Step fails validPC before
-                 beforeExecuteOpcode *)
-              err_dbg (snap s2 :: acc) (BE :: evs ++ [BC; AC; AS; BS])
+          | [] => pre (BE :: evs ++ [BC; AC; AS]) (finish_dbg c (ds s2) (snap s2 :: acc))   (* zero-length script skipped *)
           | _ => pre (BE :: evs ++ [BC; AC; AS]) (run_lock_dbg so c bip16 [] lock s2 (snap s2 :: acc))
           end
       | (SEnd s1, acc, evs) =>
